@@ -30,7 +30,7 @@ CONSTANTS
     Creators,              \* who may create the group (members are interchangeable: {0} loses nothing)
     WelcomeAddsSelf,       \* TRUE: process_welcome adds the welcomed member to the DGM state it
                            \* received (repaired code); FALSE: the code before the fix
-    Defect_ConcurrentAdd   \* TRUE: an `add` may be concurrent with a key rotation (update/remove);
+    Defect_ConcurrentAdd   \* TRUE: an `add` may be concurrent with a key rotation (update);
                            \* the added member then never receives that secret (known finding).
                            \* FALSE: such schedules are not generated.
 
@@ -116,15 +116,18 @@ Deliver(m, k) ==
 \* what the new message of m causally depends on: everything m processed, and its own messages
 AncOf(m) == procd[m] \cup Own(m)
 
-\* bounds on concurrency, evaluated for a new operation `op` of m
-ConcOk(m, op) ==
+\* bounds on concurrency, evaluated for a new operation `op` (argument x, -1 if none) of m
+ConcOk(m, op, x) ==
     LET others == Ids \ AncOf(m)        \* existing messages the new one is concurrent with
     IN /\ Cardinality(ConcPairs) + Cardinality(others) <= MaxConc
-       \* concurrent add/remove is the business of the DGM (the crate's TestDgm is not a CRDT)
-       /\ \A k \in others : {msgs[k].op, op} # {"Add", "Remove"}
-       /\ Defect_ConcurrentAdd \/
-            \A k \in others : ~( (msgs[k].op = "Add" /\ op \in {"Update", "Remove"})
-                               \/ (op = "Add" /\ Mints(k)) )
+       \* An add concurrent with another membership change is the business of the DGM: the crate's
+       \* TestDgm is not a CRDT and `from_welcome` REPLACES whatever the new member processed before
+       \* (GroupMembership::from_welcome does not even see the local state).  Allowed: several adds of
+       \* the same member; and, as the recorded known finding, an add concurrent with an update.
+       /\ \A k \in others :
+            (msgs[k].op = "Add" \/ op = "Add") =>
+                \/ (msgs[k].op = "Add" /\ op = "Add" /\ msgs[k].arg = x)
+                \/ (Defect_ConcurrentAdd /\ {msgs[k].op, op} = {"Add", "Update"})
 
 Publish(m, msg) ==
     /\ msgs' = Append(msgs, [msg EXCEPT !.id = Len(msgs) + 1,
@@ -145,20 +148,20 @@ OpCreate(m, S) ==
 CanAct(m) == Len(msgs) < MaxOps /\ welcomed[m] /\ m \in view[m]
 
 OpUpdate(m) ==
-    /\ CanAct(m) /\ ConcOk(m, "Update")
+    /\ CanAct(m) /\ ConcOk(m, "Update", -1)
     /\ Publish(m, [Blank EXCEPT !.by = m, !.op = "Update", !.sec = 1, !.rcp = view[m] \ {m}])
     /\ knows' = [knows EXCEPT ![m] = @ \cup {Len(msgs) + 1}]
     /\ UNCHANGED <<welcomed, view>>
 
 OpRemove(m, x) ==
-    /\ CanAct(m) /\ x \in view[m] /\ x # m /\ ConcOk(m, "Remove")
+    /\ CanAct(m) /\ x \in view[m] /\ x # m /\ ConcOk(m, "Remove", x)
     /\ Publish(m, [Blank EXCEPT !.by = m, !.op = "Remove", !.arg = x, !.sec = 1, !.rcp = view[m] \ {m, x}])
     /\ view' = [view EXCEPT ![m] = @ \ {x}]
     /\ knows' = [knows EXCEPT ![m] = @ \cup {Len(msgs) + 1}]
     /\ UNCHANGED welcomed
 
 OpAdd(m, x) ==
-    /\ CanAct(m) /\ x \notin view[m] /\ ConcOk(m, "Add")
+    /\ CanAct(m) /\ x \notin view[m] /\ ConcOk(m, "Add", x)
     /\ Publish(m, [Blank EXCEPT !.by = m, !.op = "Add", !.arg = x, !.wel = knows[m], !.hist = view[m]])
     /\ view' = [view EXCEPT ![m] = @ \cup {x}]
     /\ UNCHANGED <<welcomed, knows>>
@@ -166,7 +169,11 @@ OpAdd(m, x) ==
 Quiescent == \A m \in Member : \A k \in Ids : k \in dlv[m] \/ msgs[k].by = m
 OpEnabled ==
     \/ msgs = <<>>
-    \/ \E m \in Member : CanAct(m) /\ (ConcOk(m, "Update") \/ ConcOk(m, "Remove") \/ ConcOk(m, "Add"))
+    \/ \E m \in Member :
+          /\ CanAct(m)
+          /\ \/ ConcOk(m, "Update", -1)
+             \/ \E x \in Member : \/ (x \in view[m] /\ x # m /\ ConcOk(m, "Remove", x))
+                                  \/ (x \notin view[m] /\ ConcOk(m, "Add", x))
 Done == msgs # <<>> /\ Quiescent /\ (Len(msgs) = MaxOps \/ ~OpEnabled)
 Terminated == Done /\ UNCHANGED vars
 
